@@ -8,6 +8,7 @@ import (
 	"os/exec"
 	"os/signal"
 	"path/filepath"
+	"strings"
 	"syscall"
 
 	"github.com/brutella/hc/db"
@@ -34,9 +35,12 @@ type faultOp struct {
 }
 
 type faultPlan struct {
-	Dir   string    `json:"dir"`
-	Limit uint64    `json:"limit"`
-	Ops   []faultOp `json:"ops"`
+	Dir   string `json:"dir"`
+	Limit uint64 `json:"limit"` // RLIMIT_FSIZE of the child; 0: none
+	// Inject, when set, names the system calls that fail with EIO in the child for as long as it runs (strace -e inject):
+	// "rename,renameat,renameat2" (the new file cannot be moved into place)
+	Inject string    `json:"inject,omitempty"`
+	Ops    []faultOp `json:"ops"`
 }
 
 type faultRes struct {
@@ -65,10 +69,12 @@ func faultChildMain(planFile string) {
 		os.Exit(3)
 	}
 	d := db.NewDatabaseWithStorage(st)
-	signal.Ignore(syscall.SIGXFSZ)
-	if err := syscall.Setrlimit(syscall.RLIMIT_FSIZE, &syscall.Rlimit{Cur: plan.Limit, Max: plan.Limit}); err != nil {
-		fmt.Fprintln(os.Stderr, "fault child: setrlimit:", err)
-		os.Exit(4)
+	if plan.Limit > 0 {
+		signal.Ignore(syscall.SIGXFSZ)
+		if err := syscall.Setrlimit(syscall.RLIMIT_FSIZE, &syscall.Rlimit{Cur: plan.Limit, Max: plan.Limit}); err != nil {
+			fmt.Fprintln(os.Stderr, "fault child: setrlimit:", err)
+			os.Exit(4)
+		}
 	}
 	out := make([]faultRes, len(plan.Ops))
 	for i, op := range plan.Ops {
@@ -102,6 +108,11 @@ func writeFaults(r *vf.Run, base string) {
 		rnd := r.RandN("c18-faults", i)
 		dir := filepath.Join(base, fmt.Sprintf("fault%d", i))
 		L := limits[i%len(limits)]
+		inject := ""
+		if i%3 == 2 {
+			inject = "rename,renameat,renameat2" // (close cannot be injected from the start: the dynamic loader of the child fails on it)
+			r.Distinct("fault_injected_syscalls", inject)
+		}
 		// prepare old values without any limit, through hc
 		st, err := util.NewFileStorage(dir)
 		if err != nil {
@@ -153,7 +164,10 @@ func writeFaults(r *vf.Run, base string) {
 			}
 			slots = append(slots, s)
 		}
-		plan := faultPlan{Dir: dir, Limit: L}
+		plan := faultPlan{Dir: dir, Limit: L, Inject: inject}
+		if inject != "" {
+			plan.Limit = 0
+		}
 		for _, s := range slots {
 			plan.Ops = append(plan.Ops, s.op)
 		}
@@ -161,6 +175,10 @@ func writeFaults(r *vf.Run, base string) {
 		b, _ := json.Marshal(plan)
 		os.WriteFile(pf, b, 0o644)
 		cmd := exec.Command(exe, "-fault-child", pf)
+		if inject != "" {
+			cmd = exec.Command("strace", "-f", "-qq", "-o", "/dev/null", "-e", "trace="+inject, "-e", "inject="+inject+":error=EIO", exe, "-fault-child", pf)
+			r.Count("fault_cases_with_failing_"+strings.Split(inject, ",")[0], 1)
+		}
 		var stdout, stderr bytes.Buffer
 		cmd.Stdout, cmd.Stderr = &stdout, &stderr
 		runErr := cmd.Run()
@@ -185,7 +203,7 @@ func writeFaults(r *vf.Run, base string) {
 		d2 := db.NewDatabaseWithStorage(st2)
 		refusedHere := 0
 		for j, s := range slots {
-			wit := map[string]interface{}{"file_size_limit": L, "operation": fmt.Sprintf("%s(%q, %d bytes)", s.op.Kind, s.op.Key, len(s.op.Val)), "returned_error": res[j].Err,
+			wit := map[string]interface{}{"fault": faultName(L, inject), "operation": fmt.Sprintf("%s(%q, %d bytes)", s.op.Kind, s.op.Key, len(s.op.Val)), "returned_error": res[j].Err,
 				"had_previous_value_of_bytes": len(s.old), "previous_value_existed": s.hadOld, "position_in_case": j}
 			if res[j].Panic != "" {
 				r.Violation("fault:panic:"+s.op.Kind, "the call panicked when the file system refused the write: "+res[j].Panic[:min(len(res[j].Panic), 300)], wit)
@@ -217,14 +235,14 @@ func writeFaults(r *vf.Run, base string) {
 			if res[j].Err == "" {
 				r.Count("fault_calls_that_returned_nil", 1)
 				if !isNew {
-					r.Violation("fault:returned-nil:value-not-stored:"+s.op.Kind, fmt.Sprintf("%s of %d bytes returned nil under a file size limit of %d bytes, reading back gives %s", s.op.Kind, len(s.op.Val), L, describeGot(present, got, s.op.Val)), wit)
+					r.Violation("fault:returned-nil:value-not-stored:"+s.op.Kind, fmt.Sprintf("%s of %d bytes returned nil under %s, reading back gives %s", s.op.Kind, len(s.op.Val), faultName(L, inject), describeGot(present, got, s.op.Val)), wit)
 				}
 				continue
 			}
 			refusedHere++
 			r.Count("fault_calls_that_returned_an_error", 1)
 			if !isNew && !isOld {
-				r.Violation("fault:returned-error:value-damaged:"+s.op.Kind, fmt.Sprintf("%s of %d bytes returned an error under a file size limit of %d bytes, reading back gives %s, which is neither the previous value nor the complete new one", s.op.Kind, len(s.op.Val), L, describeGot(present, got, s.op.Val)), wit)
+				r.Violation("fault:returned-error:value-damaged:"+s.op.Kind, fmt.Sprintf("%s of %d bytes returned an error under %s, reading back gives %s, which is neither the previous value nor the complete new one", s.op.Kind, len(s.op.Val), faultName(L, inject), describeGot(present, got, s.op.Val)), wit)
 			}
 		}
 		if _, err := d2.Entities(); err != nil {
@@ -256,4 +274,11 @@ func describeGot(present bool, got, want []byte) string {
 		return fmt.Sprintf("%d bytes: a truncated copy of the new value", len(got))
 	}
 	return fmt.Sprintf("%d bytes", len(got))
+}
+
+func faultName(limit uint64, inject string) string {
+	if inject != "" {
+		return "the system calls " + inject + " failing with EIO"
+	}
+	return fmt.Sprintf("a file size limit of %d bytes", limit)
 }
